@@ -11,9 +11,13 @@ package props
 import (
 	"bytes"
 	"fmt"
+	"github.com/datastax/go-cassandra-native-protocol/datatype"
+	"github.com/datastax/go-cassandra-native-protocol/message"
 	"reflect"
 	"runtime"
+	"strings"
 	"sync"
+	"sync/atomic"
 	"testing"
 
 	"github.com/datastax/go-cassandra-native-protocol/compression/lz4"
@@ -54,7 +58,72 @@ func digestBytes(b []byte) string { return fmt.Sprintf("%d:%016x", len(b), stats
 func c18DrawItem(rt *rapid.T, i int) *c18Item {
 	label := fmt.Sprintf("item%d", i)
 	v := gen.Version(rt)
-	switch rapid.IntRange(0, 6).Draw(rt, label+"/kind") {
+	kind := rapid.IntRange(0, 8).Draw(rt, label+"/kind")
+	if kind == 8 && !gen.AtLeast(v, 3) {
+		kind = 4
+	}
+	switch kind {
+	case 8: // a user-defined type written from and read into a Go struct type that did not exist before
+		nf := rapid.IntRange(1, 4).Draw(rt, label+"/fields")
+		fts := make([]datatype.DataType, nf)
+		names := make([]string, nf)
+		rep := &gen.Rep{Kind: "struct", Names: make([]string, nf), Tags: make([]string, nf), Fields: make([]*gen.Rep, nf), ArrLen: -1}
+		for i := range fts {
+			fts[i] = gen.ValueType(rt, v, 0, fmt.Sprintf("%s/ft%d", label, i))
+			names[i] = fmt.Sprintf("f%d", i)
+			rep.Fields[i] = gen.DrawRep(rt, fts[i], false, fmt.Sprintf("%s/fr%d", label, i))
+		}
+		dt, err := datatype.NewUserDefined("ks", "udt", names, fts)
+		if err != nil {
+			rt.Fatalf("harness defect: %v", err)
+		}
+		freshStructs(dt, rep)
+		av := gen.DrawAV(rt, dt, rep, v, false, label+"/value")
+		codec, err := datacodec.NewCodec(dt)
+		if err != nil {
+			rt.Fatalf("NewCodec: %v", err)
+		}
+		return &c18Item{name: "value/udt-fresh-struct", run: func() (string, error) {
+			src := gen.ToGo(av, dt, rep).Interface()
+			enc, err := codec.Encode(src, v)
+			if err != nil {
+				return "", err
+			}
+			dest := reflect.New(topDestType(rep))
+			if _, err := codec.Decode(enc, dest.Interface(), v); err != nil {
+				return "", err
+			}
+			got, err := gen.FromGo(dest.Elem(), dt)
+			if err != nil {
+				return "", err
+			}
+			return gen.RenderAV(dt, got), nil
+		}}
+	case 7: // a compressed frame whose body is corrupt: refused, on the same shared codec the valid frames go through
+		comp := rapid.SampledFrom([]compKind{compLz4, compSnappy}).Draw(rt, label+"/comp")
+		if v == primitive.ProtocolVersion5 {
+			comp = compLz4
+		}
+		q := gen.Str(rt, label+"/query")
+		codec := sharedFrame[comp]
+		f := frame.NewFrame(v, 1, &message.Query{Query: "SELECT " + q + strings.Repeat(" x", 40)})
+		f.SetCompress(true)
+		enc, err := encodeFrame(codec, f)
+		if err != nil {
+			rt.Fatalf("EncodeFrame: %v", err)
+		}
+		h := hdrLen(v)
+		bad := append([]byte{}, enc...)
+		for i := h + 4; i < len(bad); i++ { // keep the LZ4 length prefix, ruin the block
+			bad[i] = 0xff
+		}
+		return &c18Item{name: "corrupt-frame/" + comp.String(), run: func() (string, error) {
+			_, err := codec.DecodeFrame(bytes.NewReader(bad))
+			if err == nil {
+				return "accepted", nil
+			}
+			return "refused", nil
+		}}
 	case 6: // raw paths on the shared frame codec: convert to raw, encode raw, decode raw, convert back; discard
 		comp := drawComp(rt, v)
 		o := gen.DefaultOpts()
@@ -130,6 +199,10 @@ func c18DrawItem(rt *rapid.T, i int) *c18Item {
 			if err != nil {
 				return "", err
 			}
+			// the caller holds the decoded payload for a while (other goroutines keep decoding on the same codec)
+			for y := 0; y < 3; y++ {
+				runtime.Gosched()
+			}
 			return digestBytes(enc) + "/" + digestBytes(dec.Payload.UncompressedData), nil
 		}}
 	case 3: // message codec (package-level shared instances)
@@ -157,6 +230,10 @@ func c18DrawItem(rt *rapid.T, i int) *c18Item {
 		dt := gen.ValueType(rt, v, rapid.IntRange(0, 2).Draw(rt, label+"/depth"), label+"/type")
 		rep := gen.DrawRep(rt, dt, false, label+"/rep")
 		rep.Iface = false
+		if rapid.Bool().Draw(rt, label+"/freshStructTypes") {
+			// Go struct types nobody has used before (what is remembered about a type is then learnt concurrently)
+			freshStructs(dt, rep)
+		}
 		av := gen.DrawAV(rt, dt, rep, v, false, label+"/value")
 		var codec datacodec.Codec
 		if c, ok := sharedNested.Load(dt.AsCql()); ok {
@@ -214,24 +291,67 @@ func c18DrawItem(rt *rapid.T, i int) *c18Item {
 	}
 }
 
+var freshCounter atomic.Int64
+
+// freshStructs renames the fields of every struct representation of a UDT so that reflect.StructOf yields a type that did
+// not exist before; the cassandra tag carries the UDT field name.
+func freshStructs(dt datatype.DataType, r *gen.Rep) {
+	if r == nil {
+		return
+	}
+	switch x := dt.(type) {
+	case *datatype.List:
+		freshStructs(x.ElementType, r.Elem)
+	case *datatype.Set:
+		freshStructs(x.ElementType, r.Elem)
+	case *datatype.Map:
+		freshStructs(x.KeyType, r.Key)
+		freshStructs(x.ValueType, r.Elem)
+	case *datatype.Tuple:
+		for i, ft := range x.FieldTypes {
+			if i < len(r.Fields) {
+				freshStructs(ft, r.Fields[i])
+			}
+		}
+	case *datatype.UserDefined:
+		if r.Kind == "struct" && len(r.Names) == len(x.FieldNames) && len(r.Tags) == len(x.FieldNames) {
+			u := freshCounter.Add(1)
+			for i := range r.Names {
+				r.Names[i] = fmt.Sprintf("T%d_%d", i, u)
+				r.Tags[i] = x.FieldNames[i]
+			}
+		}
+		for i, ft := range x.FieldTypes {
+			if i < len(r.Fields) {
+				freshStructs(ft, r.Fields[i])
+			}
+		}
+	}
+}
+
 func c18Property(rt *rapid.T) {
 	rec := stats.For("C18")
 	c18Shared()
 	m := rapid.IntRange(2, 16).Draw(rt, "goroutines")
 	per := rapid.IntRange(1, 12).Draw(rt, "itemsPerGoroutine")
 	repeat := rapid.IntRange(1, 6).Draw(rt, "repeat")
+	// cold start: the sequential reference results are computed AFTER the concurrent phase, so that whatever the library
+	// remembers between calls (per-type caches, pools) is first touched by concurrent callers
+	cold := rapid.Bool().Draw(rt, "coldStart")
 	items := make([][]*c18Item, m)
 	n := 0
 	for g := range items {
 		for j := 0; j < per; j++ {
 			it := c18DrawItem(rt, n)
 			n++
-			want, err := it.run() // sequential reference result
-			if err != nil {
-				// e.g. the open LZ4 dependency finding on a large body: not this property's business
-				continue
+			if !cold {
+				want, err := it.run() // sequential reference result
+				if err != nil {
+					// e.g. the open LZ4 dependency finding on a large body: not this property's business
+					continue
+				}
+				it.want = want
 			}
-			it.want = want
 			items[g] = append(items[g], it)
 		}
 	}
@@ -240,6 +360,7 @@ func c18Property(rt *rapid.T) {
 	var wg sync.WaitGroup
 	var mu sync.Mutex
 	var failures []string
+	coldGot := map[*c18Item]string{}
 	for g := 0; g < m; g++ {
 		wg.Add(1)
 		go func(g int) {
@@ -251,6 +372,18 @@ func c18Property(rt *rapid.T) {
 						runtime.Gosched()
 					}
 					got, err := it.run()
+					if cold {
+						if err != nil {
+							got = "error"
+						}
+						mu.Lock()
+						if prev, ok := coldGot[it]; ok && prev != got {
+							failures = append(failures, fmt.Sprintf("goroutine %d: %s: two concurrent runs of the same call gave %q and %q", g, it.name, clipS(prev), clipS(got)))
+						}
+						coldGot[it] = got
+						mu.Unlock()
+						continue
+					}
 					if err != nil || got != it.want {
 						mu.Lock()
 						failures = append(failures, fmt.Sprintf("goroutine %d: %s: concurrent result %q (err=%v) differs from the sequential result %q", g, it.name, clipS(got), err, clipS(it.want)))
@@ -262,6 +395,19 @@ func c18Property(rt *rapid.T) {
 	}
 	close(start)
 	wg.Wait()
+	if cold {
+		for _, its := range items {
+			for _, it := range its {
+				want, err := it.run()
+				if err != nil {
+					want = "error"
+				}
+				if got := coldGot[it]; got != want {
+					failures = append(failures, fmt.Sprintf("%s: concurrent result %q differs from the result of the same call made afterwards on its own %q", it.name, clipS(got), clipS(want)))
+				}
+			}
+		}
+	}
 	if len(failures) > 0 {
 		rt.Fatalf("%d of the concurrent calls disagree with their sequential results, e.g. %s", len(failures), failures[0])
 	}
@@ -273,7 +419,7 @@ func c18Property(rt *rapid.T) {
 	}
 	rec.Case(true, stats.HashString(fmt.Sprintf("%d/%d/%d/%v", m, per, repeat, names)), func() string {
 		return fmt.Sprintf("%d goroutines x %d items x %d repeats on shared codecs: %v", m, per, repeat, names[:min(len(names), 12)])
-	}, "round", fmt.Sprintf("goroutines:%d", m))
+	}, "round", fmt.Sprintf("goroutines:%d", m), fmt.Sprintf("cold-start:%v", cold))
 	rec.Class("calls", int64(n*repeat))
 }
 
